@@ -1767,7 +1767,7 @@ def gen_ops_history2(rng):
     def store(delete=None):
         ops.append({"op": "store", "delete": rng.random() < 0.4 if delete is None else delete, "bessel": rng.random() < 0.5})
 
-    only_failing = rng.random() < 0.12   # nothing but a failing store: the constructor's statistics must survive it
+    only_failing = rng.random() < 0.15   # nothing but a failing store: the constructor's statistics must survive it
     if rng.random() < 0.2 or only_failing:          # a store that must fail: nothing or one frame so far
         if rng.random() < 0.7:
             acc(one_frame=True)
@@ -1815,12 +1815,12 @@ def gen_cmd_names(rng):
     ids = list(rng.choice(ID_POOLS))
     rng.shuffle(ids)
     decoys = []
-    for nm in rng.sample(ids, 3):
-        for d in (("x" + prefix + nm + suffix) if prefix else None, prefix + nm + suffix + ".bak", prefix + nm + suffix[:-1],
-                  (prefix[:-1] + nm + suffix) if len(prefix) > 1 else None):
-            if d and not (d.startswith(prefix) and d.endswith(suffix)):
-                decoys.append(d)
-    c["names"] = {"prefix": prefix, "suffix": suffix, "ids": ids, "gids": list(rng.choice(GID_POOLS)), "decoys": sorted(set(decoys))[:4]}
+    nm = rng.choice(ids)
+    for d in (("x" + prefix + nm + suffix) if prefix else None, prefix + nm + suffix + ".bak", prefix + nm + suffix[:-1],
+              (prefix[:-1] + nm + suffix) if len(prefix) > 1 else None):
+        if d and not (d.startswith(prefix) and d.endswith(suffix)):
+            decoys.append(d)
+    c["names"] = {"prefix": prefix, "suffix": suffix, "ids": ids, "gids": list(rng.choice(GID_POOLS)), "decoys": sorted(set(decoys))}
     c["junk"] = []
     c["num_workers"] = 0
     c["stream"] = "names"
@@ -2118,6 +2118,76 @@ def run(chk, cases=None):
     elif pending:
         for rec in pending[:2]:
             chk.report(rec, no_failing_input=True)
+    source_tie(chk, cases, outs)
+
+
+# ------------------------------------------------------------------------------------------
+# source tie (returns): the translated Python text, interpreted inside Coq, on the cases of this run
+# ------------------------------------------------------------------------------------------
+IMPORTS_SRC = IMPORTS + "From PV Require C18.SrcRun.\n"
+SRC_TIE_MAX_T = 80      # horizon up to which the interpreted source is evaluated by vm_compute (the T x T discount matrix)
+SRC_TIE_MAX_N = 8
+
+
+def src_return_term(case, out):
+    """bool: PV.Gen.C18Src.tdr_body (the body of time_distributed_return as regenerated from the working tree by py2coq),
+    run by PV.MiniPy.Interp with the torch calls given the exact-rational meaning of PV.MiniTorch.Ops (SrcRun.ext18), gives
+    what the implementation gave - same inputs as exact rationals, same comparison and tolerance as Model.check_return."""
+    t = return_term(case, out)
+    if not t.startswith("check_return "):
+        return None
+    return "SrcRun.src_return_check " + t[len("check_return "):]
+
+
+def _src_tie_eligible(case, out):
+    if case.get("kind") != "return" or case.get("python_only") or nonfinite(case, out):
+        return False
+    sh = case["r"]["shape"]
+    if len(sh) == 2:
+        T, N = (sh[1], sh[0]) if case["bf"] else (sh[0], sh[1])
+        return T <= SRC_TIE_MAX_T and N <= SRC_TIE_MAX_N
+    return numel(sh) <= 64
+
+
+def source_tie(chk, cases, outs):
+    """run the translated source inside Coq on the return cases of this run: validates the translator, MiniPy's semantics,
+    ext18 and the MiniTorch definitions against CPython + torch; independent of whether the tie lemmas still compile"""
+    from vlib import CoqError
+    idx, terms = [], []
+    for i, (c, o) in enumerate(zip(cases, outs)):
+        if _src_tie_eligible(c, o):
+            t = src_return_term(c, o)
+            if t is not None:
+                idx.append(i)
+                terms.append(t)
+    if not idx:
+        chk.extra["source_tie_run"] = {"cases": 0, "disagreements": 0}
+        return
+    import time
+    t0 = time.time()
+    try:
+        res = coq_eval_bools(chk.workdir, IMPORTS_SRC, terms, shard=25, tag="src")
+    except CoqError as e:
+        chk.extra["source_tie_run"] = "not evaluated: " + str(e)[-400:]
+        return
+    bad = [idx[j] for j, ok in enumerate(res) if not ok]
+    chk.extra["source_tie_run"] = {"cases": len(idx), "disagreements": len(bad), "wall_s": round(time.time() - t0, 1),
+                                   "batch_first": sum(1 for i in idx if cases[i]["bf"]),
+                                   "not_2d": sum(1 for i in idx if len(cases[i]["r"]["shape"]) != 2),
+                                   "gamma_zero": sum(1 for i in idx if _gamma(cases[i]) == 0),
+                                   "max_T": max([max(cases[i]["r"]["shape"] + [0]) for i in idx])}
+    chk.count("source_tie_cases", len(idx))
+    if bad:
+        i = bad[0]
+        chk.report({"case": cases[i], "impl": outs[i],
+                    "what": "the Python source of time_distributed_return as translated to MiniPy and interpreted in Coq "
+                            "(PV.C18.SrcRun.src_return, torch calls = PV.MiniTorch.Ops) does not reproduce the implementation's "
+                            "output: translator / interpreter / ext18 / MiniTorch no longer describe the code",
+                    "disagreeing_cases": len(bad),
+                    "correspondence": "tie:C18:py2coq+MiniPy.Interp+MiniTorch:time_distributed_return",
+                    "theorems_at_stake": ["c18_source_return_is_model", "c18_source_return_raises",
+                                          "c18_source_return_refines_model", "c18_source_return_recursion",
+                                          "c18_source_return_eq_spec"]}, no_failing_input=True)
 
 
 def _nf_signature(case, out):
